@@ -27,7 +27,32 @@ def drawing_chars():
 LABELS = "abcdefghijklmnpqrstuwyzABCDEFGHIJKLMNPQRSTUWYZ0123456789?@$%;&"
 
 
+def overlap_text(rng):
+    """a label that lies inside the bounding boxes of two shapes that do not contain one another: between two long
+    diagonals, or in the corner of a box passed by a diagonal"""
+    lab = rng.choice(["a", "ab", "xy z"])
+    if rng.chance(1, 2):
+        h = rng.range(4, 7)
+        gap = len(lab) + rng.range(0, 2)
+        rows = [" " * (h - 1 - i) + "/" + " " * gap + "/" for i in range(h)]
+        i = rng.range(1, h - 2)
+        rows[i] = " " * (h - 1 - i) + "/" + (lab + " " * gap)[:gap] + "/"
+        return "\n".join(rows)
+    w = len(lab) + rng.range(2, 4)
+    h = rng.range(2, 3)
+    b = gen.box(w, h, inner=[""] * (h - 1) + [" " * (w - len(lab)) + lab]).split("\n")
+    n = len(b) + rng.range(2, 4)
+    out = []
+    for i in range(n):
+        base = b[i] if i < len(b) else ""
+        col = w + 2 + (n - i)
+        out.append(base.ljust(col) + ("/" if i >= 1 else ""))
+    return "\n".join(x.rstrip() for x in out)
+
+
 def gen_text(rng, draw):
+    if rng.chance(1, 12):
+        return overlap_text(rng)
     rows = []
     for _ in range(rng.range(1, 4)):
         kind = rng.below(4)
@@ -51,6 +76,7 @@ def gen_text(rng, draw):
 
 class Check(PropertyCheck):
     id = "C04"
+    thorough_mult = 3
     lean_modules = ["Svgbob.Properties.C04"]
     assumptions = [
         "whole-pipeline model tied to the implementation end to end (bytes)",
